@@ -331,6 +331,10 @@ def run(prog, rep, tier):
              'block in U / VH (identity where `a` stores none)')
     if check_full_unitary(prog, rep) < 2:
         raise AnalysisError('FACT-full-unitary: the full_matrices branch of _svd_worker not found')
+    rep.rule('FACT-eig-slot', 'eigenvalues and eigenvector blocks are stored at the row sector of the '
+             'diagonal block, sliced on a.legs[0]')
+    if check_eig_slots(prog, rep) < 3:
+        raise AnalysisError('FACT-eig-slot: stores of _eig_worker / _eigvals_worker not found')
     rep.rule('FACT-triangular', 'typestate of the R factor of qr_li on the CFG')
     check_triangular(prog, rep)
     return rep.finish(
@@ -341,6 +345,71 @@ def run(prog, rep, tier):
         (n_ob, n_dis),
         proof={'obligations': n_ob, 'discharged': n_dis, 'exhaustive': True,
                'checker_cmd': './check C05', 'trusted_base': ['sa/charge.py', 'sa/linform.py']})
+
+
+# ------------------------------------------------------------------ FACT-eig-slot
+def check_eig_slots(prog, rep):
+    """_eig_worker / _eigvals_worker write the eigenvalues of a diagonal block into the flat array
+    `resw` and (for eig/eigh) the eigenvectors into the identity `resv = diag(1, a.legs[0])`, whose
+    blocks and columns are enumerated by the sectors of a.legs[0].  Eigenvalue i belongs to column
+    i of the eigenvector matrix only if both are addressed through the ROW index of the block
+    (`qindices[0]`) and the slices of a.legs[0]: the column index / second leg enumerate the same
+    sectors in another order when the second leg is stored in the equivalent flipped form."""
+    m = prog.module(NPC)
+    n = 0
+    for qn in ('_eig_worker', '_eigvals_worker'):
+        f = m.func(qn)
+        loop = None
+        for st in ast.walk(f):
+            if isinstance(st, ast.For) and 'a._qdata' in unparse(st.iter):
+                loop = st
+        if loop is None:
+            raise AnalysisError('FACT-eig-slot: block loop of %s not found' % qn)
+        qname = loop.target.elts[0].id if isinstance(loop.target, ast.Tuple) and isinstance(
+            loop.target.elts[0], ast.Name) else None
+        # names bound to the row index of the block
+        row, col = set(), set()
+        for st in ast.walk(loop):
+            if isinstance(st, ast.Assign) and len(st.targets) == 1:
+                t, v = st.targets[0], st.value
+                if isinstance(t, ast.Name) and isinstance(v, ast.Subscript) and \
+                        unparse(v.value) == qname and isinstance(v.slice, ast.Constant):
+                    (row if v.slice.value == 0 else col).add(t.id)
+                elif isinstance(t, ast.Tuple) and unparse(v) == qname and len(t.elts) == 2:
+                    if isinstance(t.elts[0], ast.Name):
+                        row.add(t.elts[0].id)
+                    if isinstance(t.elts[1], ast.Name):
+                        col.add(t.elts[1].id)
+        row_txt = set(row) | {'%s[0]' % qname}
+        for st in ast.walk(loop):
+            if not (isinstance(st, ast.Assign) and len(st.targets) == 1 and isinstance(
+                    st.targets[0], ast.Subscript)):
+                continue
+            t = st.targets[0]
+            base = unparse(t.value)
+            if base == 'resw':
+                n += 1
+                idx = t.slice
+                ok = isinstance(idx, ast.Call) and unparse(idx.func) == 'a.legs[0].get_slice' and \
+                    len(idx.args) == 1 and unparse(idx.args[0]) in row_txt
+                rep.instance('FACT-eig-slot', {'function': qn, 'store': unparse(t)[:60], 'ok': ok})
+                if not ok:
+                    rep.violation('FACT-eig-slot', m, qn, 'eigenvalue-slot:' + unparse(idx)[:40],
+                                  '`%s`: the eigenvalues of a block belong to the slice of its ROW '
+                                  'sector on a.legs[0] (the leg the eigenvector identity was built '
+                                  'on); the column index / second leg order the sectors '
+                                  'differently for a flipped second leg' % unparse(t)[:60],
+                                  st.lineno)
+            elif base == 'resv._data':
+                n += 1
+                ok = unparse(t.slice) in row_txt
+                rep.instance('FACT-eig-slot', {'function': qn, 'store': unparse(t)[:60], 'ok': ok})
+                if not ok:
+                    rep.violation('FACT-eig-slot', m, qn, 'eigenvector-slot:' + unparse(t.slice)[:40],
+                                  '`%s`: the identity resv has one block per sector of a.legs[0] '
+                                  'in order; the block of the eigenvectors is the ROW sector' %
+                                  unparse(t)[:60], st.lineno)
+    return n
 
 
 # ------------------------------------------------------------------ FACT-numpy-roles
